@@ -24,6 +24,12 @@ void row_scale(ParCSRMatrix* A, ParVector& rhs)
 	    {
 	        A->on_proc->vals[j] *= scale;
 	    }
+	    start = A->off_proc->idx1[i];
+	    end = A->off_proc->idx1[i+1];
+	    for (int j = start; j < end; j++)
+	    {
+	        A->off_proc->vals[j] *= scale;
+	    }
 	    rhs[i] *= scale;
     }
 }
